@@ -47,7 +47,7 @@ func (c c05case) String() string {
 }
 
 var c05strategies = []string{"off-polynomial-share-in", "flip-share-out", "alter-commitment", "alter-reveal", "copy-honest-key", "malformed-share-truncated", "malformed-share-fewer-elements",
-	"malformed-share-garbage", "duplicate-share-changed", "duplicate-commitment-changed", "duplicate-reveal-changed", "withhold-share", "withhold-commitment", "withhold-reveal", "reveal-before-commitment", "reveal-mismatching-valid-key", "second-commitment-for-another-key", "commit-to-garbage-and-reveal-it", "none"}
+	"malformed-share-garbage", "duplicate-share-changed", "duplicate-commitment-changed", "duplicate-reveal-changed", "withhold-share", "withhold-commitment", "withhold-reveal", "reveal-before-commitment", "reveal-mismatching-valid-key", "truncated-commitment-then-mismatching-valid-key", "second-commitment-for-another-key", "commit-to-garbage-and-reveal-it", "none"}
 
 type c05result struct {
 	d         *drun
@@ -125,7 +125,7 @@ func runC05(cs c05case, rng *mrand.Rand) c05result {
 			}
 			return []dmsg{m}
 		}
-		if cs.Strategy == "reveal-mismatching-valid-key" && m.from == H && isReveal && captured[3] == nil {
+		if (cs.Strategy == "reveal-mismatching-valid-key" || cs.Strategy == "truncated-commitment-then-mismatching-valid-key") && m.from == H && isReveal && captured[3] == nil {
 			captured[3] = append([]byte{}, m.data...)
 			// the Byzantine party (whose own commitment went out unchanged) now reveals the honest party's key as its own
 			for _, to := range ids {
@@ -196,6 +196,17 @@ func runC05(cs c05case, rng *mrand.Rand) c05result {
 		case "reveal-mismatching-valid-key":
 			if isReveal && hit {
 				return nil // replaced by the honest party's key injected above
+			}
+		case "truncated-commitment-then-mismatching-valid-key":
+			// the commitment keeps its tag byte and 0, 1, 16 or 31 bytes of its digest; the key revealed later is another valid one
+			if isCommit && hit {
+				keep := []int{0, 1, 16, 31}[(cs.Which+4)%4]
+				if len(m.data) > 1+keep {
+					m.data, res.effected = append([]byte{}, m.data[:1+keep]...), true
+				}
+			}
+			if isReveal && hit {
+				return nil
 			}
 		case "commit-to-garbage-and-reveal-it":
 			// layout assumed: tag byte + body, commitment body = SHA-256 of the reveal body; checked against the genuine pair below
@@ -362,7 +373,7 @@ func c05oracle(cs c05case, r c05result, rng *mrand.Rand) (string, string) {
 }
 
 func unitC05(e common.Env, p *common.Part) {
-	p.Rule = "directly wired BLS and PS key generations in which one participant is a real backend behind a wrapper that perturbs what goes in and out: off-polynomial share it receives (consistent commit/reveal), flipped outgoing share (PS: x and each y_j), altered commitment / reveal, copy of an honest party's commitment and key, malformed share (truncated, fewer elements, garbage), a commitment to garbage that is then revealed (garbage of arbitrary sizes and of exactly a group element's size: all ones, all zeros, a pattern, a genuine element with one byte changed), duplicates with a changed second copy (share, commitment, reveal), withheld share / commitment / reveal, reveal delivered before the commitment; x every single victim and all honest parties as victims x (n,t) incl. t=n x PRNG delivery order; context cancelled at quiescence (all remaining KeyGens parked on their condition variable, nothing queued); oracle: honest completers report identical public material, >= t honest completers sign jointly under the reported key, no honest reveal before all commitments were received (by message kind, and by content: no 32-byte window of the key a party finally reveals occurs in anything it transmitted earlier), no panic, no hang; distinct key = (scheme, n, t, Byzantine party, strategy, victims, scalar); non-trivial when the deviation actually reached a victim"
+	p.Rule = "directly wired BLS and PS key generations in which one participant is a real backend behind a wrapper that perturbs what goes in and out: off-polynomial share it receives (consistent commit/reveal), flipped outgoing share (PS: x and each y_j), altered commitment / reveal, copy of an honest party's commitment and key, malformed share (truncated, fewer elements, garbage), a commitment cut to its tag byte plus 0 / 1 / 16 / 31 digest bytes followed by the reveal of another valid key, a commitment to garbage that is then revealed (garbage of arbitrary sizes and of exactly a group element's size: all ones, all zeros, a pattern, a genuine element with one byte changed), duplicates with a changed second copy (share, commitment, reveal), withheld share / commitment / reveal, reveal delivered before the commitment; x every single victim and all honest parties as victims x (n,t) incl. t=n x PRNG delivery order; context cancelled at quiescence (all remaining KeyGens parked on their condition variable, nothing queued); oracle: honest completers report identical public material, >= t honest completers sign jointly under the reported key, no honest reveal before all commitments were received (by message kind, and by content: no 32-byte window of the key a party finally reveals occurs in anything it transmitted earlier), no panic, no hang; distinct key = (scheme, n, t, Byzantine party, strategy, victims, scalar); non-trivial when the deviation actually reached a victim"
 	type nt struct{ n, t int }
 	nts := []nt{{3, 2}, {3, 3}, {4, 2}, {4, 3}, {4, 4}}
 	if e.Thorough() {
@@ -392,6 +403,12 @@ func unitC05(e common.Env, p *common.Part) {
 					}
 					if st == "malformed-share-fewer-elements" && sch.Name == "bls" {
 						continue
+					}
+					if st == "truncated-commitment-then-mismatching-valid-key" {
+						whichs = []int{0, 1, 2, 3}
+						if !e.Thorough() {
+							whichs = []int{0, 1 + len(cases)%3}
+						}
 					}
 					if st == "commit-to-garbage-and-reveal-it" {
 						// one case per kind of garbage (quick: the first, and the full-sized ones for every second configuration)
